@@ -12,17 +12,23 @@ from common import *
 
 ID = 'C03'
 COQ_FILES = ['Model/Distance.v', 'Proofs/DistanceBase.v', 'Proofs/DistanceFloyd.v', 'Proofs/DistanceBin.v',
-             'Proofs/DistanceOther.v', 'Proofs/DistanceReach.v', 'Proofs/DistanceWei.v', 'Properties/C03.v']
+             'Proofs/DistanceOther.v', 'Proofs/DistanceReach.v', 'Proofs/DistanceWei.v', 'Proofs/DistanceFull.v',
+             'Proofs/DistanceBFS.v', 'Proofs/DistanceAgree.v', 'Proofs/DistanceSimple.v', 'Properties/C03.v']
 THEOREMS = ['C03_floyd_correct', 'C03_floyd_diag_zero', 'C03_floyd_reach_iff_finite', 'C03_floyd_hops_min_path',
             'C03_floyd_transforms', 'C03_distance_bin_correct', 'C03_distance_bin_diag_zero', 'C03_distance_bin_inf_iff',
             'C03_agree_floyd_bin', 'C03_agree_any', 'C03_distance_wei_correct', 'C03_agree_wei_floyd', 'C03_distance_wei_diag_zero',
-            'C03_breadthdist_partial', 'C03_breadthdist_reach_flag',
-            'C03_reachdist_partial', 'C03_reachdist_flag_partial', 'C03_offdiag_pairs', 'C03_charpath_mean', 'C03_charpath_mean_inverse',
+            'C03_distance_wei_edge_count_path', 'C03_floyd_hops_path',
+            'C03_models_return',
+            'C03_breadthdist_correct', 'C03_breadthdist_min_dist', 'C03_breadthdist_reach_flag',
+            'C03_reachdist_correct', 'C03_reachdist_min_dist', 'C03_shortest_walk_simple',
+            'C03_agree_breadth_reach', 'C03_agree_binary_all', 'C03_offdiag_pairs', 'C03_charpath_mean', 'C03_charpath_mean_inverse',
             'C03_efficiency_bin_mean_inverse', 'C03_efficiency_wei_mean_inverse', 'C03_rout_efficiency_mean_inverse']
 RULE = ('binary and length matrices, directed and undirected, n=1..8: exhaustive (all digraphs n<=3 quick / n<=4 thorough, '
         'all undirected graphs n<=4 quick / n<=5 thorough) + structured families (ER at 4 densities, ring, star, path, complete, '
         'disjoint unions, isolated nodes, directed cycle + chords, tree + chords) with integer lengths from {1},{1,2},{1..4} '
-        '(many exact ties); inv transform on dyadic weights (exact) and on {1,2,3} (tolerance); log transform on weights '
+        '(many exact ties); weighted input for the binary routines: signed integer weights n<=8 (cancelling walk products) and '
+        'weights 1e-6/1e-7 on chains of 40-70 nodes (underflowing products)'
+        '; inv transform on dyadic weights (exact) and on {1,2,3} (tolerance); log transform on weights '
         '2^-k in (0,1] (tolerance). non-trivial = at least one finite off-diagonal distance; distinct by hash of (kind, matrix)')
 ASSUMES = ['the theorems are over exact rationals: on lengths that are NOT exact in binary64 (1/3, k*ln 2) rounding can separate exactly tied alternatives — one known finding (edge-count-tie) lives exactly there',
            'lengths are small integers or dyadic rationals, so every sum/comparison the model treats as exact is exact in binary64; '
@@ -300,6 +306,23 @@ def check_R(ctx, fn, R, D, dist, case):
     return True
 
 
+def check_diag_cycle(ctx, fn, R, D, A, dist, case):
+    """breadthdist / reachdist on the diagonal (theorems C03_breadthdist_correct / C03_reachdist_correct): D[s,s] is the
+    length of the shortest cycle through s (1 for a self-connection), infinite when there is none; R[s,s] true iff finite."""
+    n = len(dist)
+    R = np.asarray(R)
+    for s in range(n):
+        want = min([dist[s][u] + 1 for u in range(n) if A[u][s] != 0] or [INF])
+        x = D[s, s]
+        if not (x == want):
+            ctx.check(False, fn + ':diag-shortest-cycle', 'D[%d,%d]=%r, shortest cycle through %d has %s edges' % (s, s, float(x), s, want), case)
+            return False
+        if bool(R[s, s]) != (want != INF):
+            ctx.check(False, fn + ':diag-reach-flag', 'R[%d,%d]=%r but D[%d,%d]=%r' % (s, s, bool(R[s, s]), s, s, float(x)), case)
+            return False
+    return True
+
+
 def follow_pmat(P, s, t, n):
     q = [s]
     while q[-1] != t and len(q) <= n:
@@ -390,8 +413,12 @@ def do_binary(ctx, bct, A, fam, B_, with_model=True, light=False):
     # --- breadthdist / reachdist
     R, Db = call(bct.breadthdist, An.copy())
     check_D(ctx, 'breadthdist', Db, dist, case, diag_zero=False); check_R(ctx, 'breadthdist', R, Db, dist, case); res['breadthdist'] = Db
+    check_diag_cycle(ctx, 'breadthdist', R, Db, A, dist, case)
     Rr, Dr = call(bct.reachdist, An.copy())
     check_D(ctx, 'reachdist', Dr, dist, case, diag_zero=False); check_R(ctx, 'reachdist', Rr, Dr, dist, case); res['reachdist'] = Dr
+    check_diag_cycle(ctx, 'reachdist', Rr, Dr, A, dist, case)
+    if not (np.array_equal(Db, Dr) and np.array_equal(np.asarray(R, dtype=bool), np.asarray(Rr, dtype=bool))):
+        ctx.fail('agree:breadthdist/reachdist[diagonal-included]', 'the two routines return different D or R (C03_agree_breadth_reach)', case)
     # --- distance_wei / floyd on the binary matrix (domains overlap: lengths all 1)
     Dw, Bw = call(bct.distance_wei, An.copy())
     check_D(ctx, 'distance_wei', Dw, dist, case); check_hops(ctx, 'distance_wei', Bw, E, dist, case); res['distance_wei'] = Dw
@@ -576,12 +603,47 @@ def do_selfloop(ctx, bct, A, B_):
             ctx.fail(fn + ':selfloop-min-length', 'graph with self-connection: pair (%d,%d) returned %r, true distance %s'
                      % (s, t, float(D[s, t]), dist[s][t]), case)
     R, Db = call(bct.breadthdist, An.copy())
+    check_diag_cycle(ctx, 'breadthdist', R, Db, A, dist, case)
     B_.add('breadthdist ' + enc_mat(A), 'rd', case, (np.asarray(R), Db))
     Rr, Dr = call(bct.reachdist, An.copy())
+    check_diag_cycle(ctx, 'reachdist', Rr, Dr, A, dist, case)
     B_.add('reachdist ' + enc_mat(A), 'rd', case, (np.asarray(Rr), Dr))
     B_.add('dbin ' + enc_mat(A), 'dbin', case, call(bct.distance_bin, An.copy()))
     S, Hh, P = call(bct.distance_wei_floyd, An.copy())
     B_.add('floyd 0 ' + enc_mat(A, enc_q) + ' 0', 'floyd', case, (S, Hh, P, True))
+
+
+def do_weighted_support(ctx, bct, W, fam, B_, with_model=True):
+    """The binary routines on WEIGHTED input (distance_bin and reachdist binarise, breadthdist tests `!= 0`): signed
+    integers (products of weights along different walks cancel if the input is not binarised first) and weights of tiny
+    magnitude on long chains (products underflow).  Hop counts must be those of the support.  The models binarise
+    first (`bin`, `znz`); signed integer matrices are given to the model as they are, float matrices as their support."""
+    n = len(W)
+    Wn = np.array(W, dtype=float).reshape(n, n)
+    A = [[int(x != 0) for x in row] for row in W]
+    ints = all(float(x).is_integer() for row in W for x in row)
+    case = {'kind': 'weighted-input-for-binary-routines', 'W': [[(int(x) if ints else float(x)) for x in row] for row in W]}
+    dist = bfs_all(A)
+    ctx.case(case, nontrivial=any(dist[s][t] != INF for s in range(n) for t in range(n) if s != t))
+    ctx.count('binw:' + fam); ctx.count('n=%d' % n)
+    W0 = Wn.copy()
+    D = call(bct.distance_bin, Wn.copy(), _t=20.0)
+    check_D(ctx, 'distance_bin[weighted-input]', D, dist, case)
+    R, Db = call(bct.breadthdist, Wn.copy(), _t=20.0)
+    check_D(ctx, 'breadthdist[weighted-input]', Db, dist, case, diag_zero=False); check_R(ctx, 'breadthdist[weighted-input]', R, Db, dist, case)
+    check_diag_cycle(ctx, 'breadthdist[weighted-input]', R, Db, A, dist, case)
+    Rr, Dr = call(bct.reachdist, Wn.copy(), _t=20.0)
+    check_D(ctx, 'reachdist[weighted-input]', Dr, dist, case, diag_zero=False); check_R(ctx, 'reachdist[weighted-input]', Rr, Dr, dist, case)
+    check_diag_cycle(ctx, 'reachdist[weighted-input]', Rr, Dr, A, dist, case)
+    o = ~np.eye(n, dtype=bool)
+    if not (np.array_equal(D[o], Db[o]) and np.array_equal(Db, Dr)):
+        ctx.fail('agree:binary-routines[weighted-input]', 'distance_bin / breadthdist / reachdist differ on a weighted matrix', case)
+    ctx.check(np.array_equal(Wn, W0), 'distance:no-mutation', 'input modified', case)
+    if with_model:
+        M = [[int(x) for x in row] for row in W] if ints else A
+        B_.add('dbin ' + enc_mat(M), 'dbin', case, D)
+        B_.add('breadthdist ' + enc_mat(M), 'rd', case, (np.asarray(R), Db))
+        B_.add('reachdist ' + enc_mat(M), 'rd', case, (np.asarray(Rr), Dr))
 
 
 # ---------------------------------------------------------------- correspondence
@@ -720,4 +782,28 @@ def run(ctx):
         A[int(r.randint(n))][int(r.randint(n))] = 1
         k = int(r.randint(n)); A[k][k] = 1
         do_selfloop(ctx, bct, A, B_)
+    # 4. weighted input for the binary routines (they binarise): signed integers whose walk products cancel, tiny weights on long chains
+    do_weighted_support(ctx, bct, [[0, 1, 0, -1], [1, 0, 1, 0], [0, 1, 0, 1], [-1, 0, 1, 0]], 'signed-4cycle-witness', B_)
+    for rep in range(ctx.scale(8, 60)):
+        for n in range(2, 9):
+            p = (0.25, 0.45, 0.7)[int(r.randint(3))]
+            vals = ([-1, 1], [-2, -1, 1, 2], [-3, -1, 1, 2])[int(r.randint(3))]
+            W = [[0 if (i == j or r.rand() >= p) else vals[int(r.randint(len(vals)))] for j in range(n)] for i in range(n)]
+            if r.rand() < 0.6:
+                for i in range(n):
+                    for j in range(i):
+                        W[i][j] = W[j][i]
+                do_weighted_support(ctx, bct, W, 'signed-und', B_)
+            else:
+                do_weighted_support(ctx, bct, W, 'signed-dir', B_)
+    for k, n in enumerate((40, 55, 70) if not ctx.thorough else (40, 48, 55, 62, 70)):
+        for eps, und in ((1e-6, True), (1e-7, False)):
+            W = [[0.0] * n for _ in range(n)]
+            for i in range(n - 1):
+                W[i][i + 1] = eps
+                if und:
+                    W[i + 1][i] = eps
+            if not und:
+                W[n - 1][int(r.randint(n // 2))] = eps        # a long directed cycle with a tail
+            do_weighted_support(ctx, bct, W, 'tiny-chain-und' if und else 'tiny-chain-dir', B_, with_model=(n <= 40 or ctx.thorough))
     compare_models(ctx, B_)
